@@ -198,3 +198,10 @@ func SignBytes(i int, msg []byte) []byte {
 	}
 	return sig
 }
+
+// InfoErr attaches an error's text to violation reports (debug aid).
+func InfoErr(err error) {
+	if err != nil {
+		Infos = append(Infos, "error: "+err.Error())
+	}
+}
